@@ -228,3 +228,31 @@ pub fn first_difference(a: &[u8], b: &[u8]) -> Option<usize> {
         None
     }
 }
+
+// ------------------------------------------------------------------------------------------------
+// Breadcrumbs: real FML code runs inside the orchestrator in the in-process layers. If it *aborts*
+// (allocation failure, native stack overflow) the whole orchestrator dies and cannot report. Each
+// worker therefore leaves the unit it is about to run in a small file; the check script replays the
+// in-flight units of a dead orchestrator one by one in fresh processes and reports the one that dies.
+
+static CRUMB_SEQ: AtomicUsize = AtomicUsize::new(0);
+thread_local! {
+    static CRUMB_SLOT: usize = CRUMB_SEQ.fetch_add(1, Ordering::Relaxed);
+}
+
+pub fn breadcrumb(property: &str, unit: serde_json::Value) {
+    if std::env::var("VERIF_NO_BREADCRUMBS").is_ok() {
+        return;
+    }
+    let slot = CRUMB_SLOT.with(|s| *s);
+    let dir = super::proc::scratch_root();
+    let _ = std::fs::create_dir_all(&dir);
+    let doc = serde_json::json!({
+        "property": property,
+        "oracle": "X0:toolchain_code_aborted_natively_in_process",
+        "detail": "the orchestrator died by a signal while this unit ran real FML code in-process",
+        "signature": {"engine": "in-process-abort"},
+        "replay": {"engine": "in-process-abort", "unit": unit},
+    });
+    let _ = std::fs::write(dir.join(format!("inflight-{}.json", slot)), doc.to_string());
+}
